@@ -232,6 +232,21 @@ def _int_unwrap(v):
 
 
 INT_EK = ElemKind('int', ISort, SInt, _int_unwrap)
+REAL_EK = ElemKind('real', RSort, SReal, lambda v: zr(v))
+_SUMS = {}
+
+
+def seq_sum_fn(ek):
+    """SUM(s, n) = s[0] + ... + s[n-1]  (uninterpreted; SUM(s,0)=0, SUM(s,n+1)=SUM(s,n)+s[n] supplied as hints)"""
+    if ek.name not in _SUMS:
+        _SUMS[ek.name] = z3.Function('SUM_' + ek.name, ek.seqsort, ISort, ek.sort)
+    return _SUMS[ek.name]
+
+
+def unfold_sum(ek, s, n):
+    f = seq_sum_fn(ek)
+    zero = z3.IntVal(0) if ek.sort == ISort else z3.RealVal(0)
+    return [f(s, z3.IntVal(0)) == zero, z3.Implies(z3.And(n >= 0, n < z3.Length(s)), f(s, n + 1) == f(s, n) + s[n])]
 
 
 def zseq(v, ek=None):
